@@ -362,11 +362,13 @@ theorem stored_deadline_is_full_timeout (cfg : Cfg) {c : Conf} (h : Reach cfg c)
     c.sh.openedAt + cfg.timeout ≤ c.sh.deadline :=
   (reach_inv cfg h).time.2.1 hf
 
-/-! ## rule reloads: every breaker object the resource ever had is a breaker in the above sense
+/-! ## rule reloads and several breakers per resource
 
-`World`: the objects built by successive `LoadRules` (a tuned, stat-reusable rule gives a fresh Closed object sharing
-only the statistic; an equal rule keeps the object); calls are bound to the live object when they start and keep
-acting on it after it has been retired.  `wrun (wstart …)` is what the driver executes for op files with `rd:` items. -/
+`World`: the breaker objects built by successive rule loads (`rebuildAux` = `BuildResourceCircuitBreaker` on a copy of
+the current list: an equal rule keeps its object, any other rule gets a fresh Closed object sharing only a statistic) and
+the resource's *published* breaker list `cur`.  A request takes its snapshot of `cur` when `Slot.Check` /
+`MetricStatSlot.OnCompleted` start (`advance`) and walks over it; a rule load publishes the new list in one step, after
+the last yield point inside the rebuild.  `wrun (wstart …)` is what the driver executes. -/
 
 /-- the words (and monitors) of an object, without the shared statistic and clock -/
 def Obj.words (o : Obj) : St × Nat × Nat × List Note × List Note :=
@@ -374,7 +376,7 @@ def Obj.words (o : Obj) : St × Nat × Nat × List Note × List Note :=
 
 /-- A step of a call bound to object `k` leaves the state word, deadline, probe counter, history and listener log of
     every other object alone (they only share the statistic and the clock): in particular a completion that is still
-    under way on a retired object cannot open, close or re-arm the live one. -/
+    under way on a retired object cannot open, close or re-arm a live one. -/
 theorem world_step_frame (w : World) (k j k' : Nat) (hne : k' ≠ k) :
     ((w.step k j).objs[k']?).map Obj.words = (w.objs[k']?).map Obj.words := by
   unfold World.step
@@ -394,16 +396,52 @@ theorem world_step_frame (w : World) (k j k' : Nat) (hne : k' ≠ k) :
         simp only [Option.map_some]
         split_ifs <;> rfl
 
-/-- Every object of every world reached from a world of breakers — any harness threads, any programs of calls and
-    reloads, any schedule — is a reachable single-breaker configuration: `transition_once`, `log_is_path`,
-    `probe_admissions_eq_transitions`, `no_early_admission_partial`, … hold for the live breaker and for each retired one. -/
+/-- the published list changes only when a rule load completes: a step of a breaker call never changes it … -/
+theorem world_step_keeps_list (w : World) (k j : Nat) : (w.step k j).cur = w.cur := by
+  unfold World.step
+  cases w.objs[k]? with
+  | none => rfl
+  | some o =>
+    unfold World.sync
+    dsimp only
+    split <;> rfl
+
+/-- … and neither does the start of a call, nor a tick -/
+theorem world_bind_keeps_list (w : World) (k : Nat) (c : Call) : (w.bindOn k c).1.cur = w.cur := by
+  unfold World.bindOn
+  cases w.objs[k]? with
+  | none => rfl
+  | some o =>
+    unfold World.sync
+    dsimp only
+    split <;> rfl
+
+/-- a rule load keeps every existing object as it is (an equal rule reuses its breaker with its state: an Open breaker
+    that is reused stays Open, with its deadline): objects are only appended -/
+theorem rebuild_keeps_objects (clock : Nat) (rules : List RuleE) :
+    ∀ (old : List Nat) (objs : List Obj) (new : List Nat), objs <+: (rebuildAux clock rules old objs new).1 := by
+  induction rules with
+  | nil => intro old objs new; simp [rebuildAux]
+  | cons r rs ih =>
+    intro old objs new
+    unfold rebuildAux
+    split
+    · exact ih _ _ _
+    · split
+      · exact (List.prefix_append _ _).trans (ih _ _ _)
+      · exact (List.prefix_append _ _).trans (ih _ _ _)
+
+/-- Every object of every world reached from a world of breakers — any harness threads, any programs of checks,
+    completions and rule loads, any schedule — is a reachable single-breaker configuration: `transition_once`,
+    `log_is_path`, `probe_admissions_eq_transitions`, `no_early_admission_partial`, … hold for every breaker of the
+    published list and for each retired one. -/
 theorem reload_objects_are_breakers (w : World) (h : WOK w) (progs : List (List WCall)) (es : List Ent) :
     WOK (wrun ⟨(wstart w progs).1, (wstart w progs).2⟩ es).w :=
   wok_wrun es _ (wok_wstart progs w h)
 
-/-- the first `LoadRules` of a case -/
-theorem first_load_is_breaker (cfg : Cfg) (rid : Nat) : WOK (({} : World).reload cfg rid false) :=
-  wok_reload _ cfg rid false wok_empty
+/-- the first rule load of a case -/
+theorem first_load_is_breaker (rules : List RuleE) : WOK (({} : World).rebuild rules) :=
+  wok_rebuild _ rules wok_empty
 
 /-- …for instance: on no object, live or retired, is a probe admitted early outside the two classified windows, and
     each object's transition history is a legal path from Closed -/
